@@ -44,6 +44,7 @@ type storeCfg struct {
 	PutAtt       int
 	ValCache     bool
 	WConfig      bool
+	ExistCache   bool // W-config only: the local store behind an existence_caching decorator
 	MinEpoch     time.Duration
 	RetryIvl     time.Duration
 }
